@@ -37,6 +37,9 @@ type Prog struct {
 	Probes     bool // p(...) after every statement
 	AddKey     bool // add_key(o1|o2, expr) / add_key(var) snapshots into the point
 	Multi      bool // v2: multi() calls in multi-assignments
+	// ReadUndefined: v2: 1-in-N probes also read a name that is NOT in scope
+	// (the run must end in an error there; a stale value is the bug)
+	ReadUndefined int
 	Boom       bool // boom() may appear as a statement
 	ExitCalls  bool // exit() may appear as a statement
 	UseTargets []string
@@ -348,6 +351,14 @@ func (g *Prog) probe() *gt.T {
 	if g.V2 {
 		for _, n := range g.defined() {
 			args = append(args, gt.Ident(n))
+		}
+		if g.ReadUndefined > 0 && g.R.Intn(g.ReadUndefined) == 0 {
+			for _, n := range append(append([]string{}, g.Names...), "i", "j", "k", "e", "ch") {
+				if _, ok := g.lookup(n); !ok {
+					args = append(args, gt.Ident(n))
+					break
+				}
+			}
 		}
 	} else {
 		for _, n := range g.Names {
